@@ -1,5 +1,5 @@
 (* C18 - TLD validity follows the delegation table exactly.  Statements only (proofs: Kernels/Tld.v). *)
-From ZL Require Import Base.Bytes Framework.Core Kernels.Tld.
+From ZL Require Import Base.Bytes Framework.Core Kernels.Tld Kernels.GtldUpdate Kernels.GtldUpdateFacts.
 Open Scope Z_scope.
 
 (* for any table that passes the data obligation table_ok *)
@@ -25,6 +25,27 @@ Proof. exact lint_tld_iff. Qed.
 Theorem c18_lower_ascii : forall s, all_ascii s = true -> go_lower s = map lower_ascii s.
 Proof. exact go_lower_ascii. Qed.
 
+(* "all future regenerations of the table" (cmd/zlint-gtld-update, model Kernels.GtldUpdate): whatever the two ICANN
+   documents say, when the generator writes a table every entry of it is keyed by its own name and has a parseable
+   delegation date and an empty or parseable removal date.  _partial: the full property also wants the key in lower
+   case and the removal not earlier than the delegation; the generator checks neither (it copies ICANN's spelling
+   and dates), so for regenerated tables those two rest on the per-run data obligation Obl_C18_table, which examines
+   the table actually checked in. *)
+Theorem c18_regen_entries_partial : forall gs body m, render gs body = Some m ->
+  forall ke, In ke m ->
+    fst ke = g_name (snd ke) /\ date_parses (g_deleg (snd ke)) = true /\
+    (g_removal (snd ke) = [] \/ date_parses (g_removal (snd ke)) = true).
+Proof. exact render_entries_spelled. Qed.
+
+(* the generator fails closed: one delegated entry with a date that does not parse and nothing is written *)
+Theorem c18_regen_fails_closed : forall gs body e,
+  In e gs -> g_deleg e <> [] -> gentry_valid e = false -> render gs body = None.
+Proof. exact render_fails_closed. Qed.
+
+(* validateGTLDs accepts a list exactly when every entry of it has acceptable dates *)
+Theorem c18_regen_validate : forall es, validate es = true <-> forall e, In e es -> gentry_valid e = true.
+Proof. exact validate_iff. Qed.
+
 Example c18_example :
   let tbl := [mkTld (s2b "com") (s2b "com") (s2b "1985-01-01") []; mkTld (s2b "old") (s2b "old") (s2b "2000-02-29") (s2b "2010-12-31")] in
   table_ok tbl = true /\
@@ -40,3 +61,6 @@ Print Assumptions c18_valid_iff.
 Print Assumptions c18_ever_iff.
 Print Assumptions c18_lint.
 Print Assumptions c18_lower_ascii.
+Print Assumptions c18_regen_entries_partial.
+Print Assumptions c18_regen_fails_closed.
+Print Assumptions c18_regen_validate.
